@@ -925,6 +925,13 @@ func (w *World) intrinsic(t *Thread, f *Frame, fnv FuncV, args []Val, c *ssa.Cal
 	if strings.HasPrefix(name, "go.uber.org/zap.") {
 		return Opaque{"zapfield"}, false
 	}
+	if fnv.fn != nil && strings.HasPrefix(name, "github.com/nats-io/nats.go.") && fnv.fn.Signature.Results().Len() == 1 {
+		// option constructors of the client (nats.IncludeHistory(), nats.IgnoreDeletes(), ...): opaque non-nil values
+		rt := fnv.fn.Signature.Results().At(0).Type()
+		if types.IsInterface(rt) && strings.HasSuffix(rt.String(), "Opt") {
+			return IfaceV{typ: types.Typ[types.UnsafePointer], v: Opaque{"nats-option:" + fnv.fn.Name()}}, false
+		}
+	}
 	panic(engErr("no intrinsic for " + name))
 }
 
